@@ -11,4 +11,5 @@ INVARIANT BlockShape
 INVARIANT OnceInOrder
 INVARIANT Released
 INVARIANT FaultsSurface
+INVARIANT ShouldStopReads
 CHECK_DEADLOCK TRUE
